@@ -64,7 +64,7 @@ fn check_case(case: &Value, stats: &mut Stats) -> CheckResult {
 pub fn property() -> Property {
     Property {
         id: "C16",
-        rule: "Valid positions (19 sources) x 64 squares x 2 colours: is_cell_attacked and cell_attackers against ray-walking / offset \
+        rule: "Valid positions (20 sources) x 64 squares x 2 colours: is_cell_attacked and cell_attackers against ray-walking / offset \
                geometry of the reference model (target contents ignored); is_check and checkers for the king of the side to move. \
                Non-trivial = position in which some square has a pawn attacker or a line-piece attacker at distance >= 2; distinct by squares.",
         assumptions: &["reference attack geometry is correct (used by the perft-validated reference move generator)"],
